@@ -41,9 +41,9 @@ class Headers(with_metaclass(HTTPSemantic, CaseInsensitiveDict)):
 
 	@classmethod
 	def formatkey(cls, key: Union[bytes, str]) -> str:
+		if cls.HEADER_RE.search(to_unicode(key).encode('utf-8')):
+			raise InvalidHeader(_(u"Invalid header name: %r"), to_unicode(key))
 		key = CaseInsensitiveDict.formatkey(key)
-		if cls.HEADER_RE.search(key.encode('utf-8')):
-			raise InvalidHeader(_(u"Invalid header name: %r"), key)
 		try:
 			return to_unicode(HEADER[key].__name__)
 		except KeyError:
